@@ -97,6 +97,9 @@ where
       if self.task_handler.is_closed() {
         let delay = (self.duration_selector)(&value);
         if self.edge.leading {
+          // Emitted on the leading edge: it must not be emitted again on the
+          // trailing edge of the same window.
+          self.trailing_value.rc_deref_mut().take();
           self.observer.next(value)
         }
         let task = OnceTask::new(
